@@ -120,6 +120,72 @@ Proof. unfold Foot_gen.nanos6_update_task. nb. Qed.
 Lemma nanos6_pre_task_noob sx e : noob sx (Foot_gen.nanos6_pre_task e).
 Proof. unfold Foot_gen.nanos6_pre_task. nb. Qed.
 
+(* ---- pre_type: the label of a type-create event *)
+Lemma noob_bind_eval {A B} sx (f : oracle -> fstate -> A) (k : A -> M B) : noob sx (k (f sx tt)) -> noob sx (bind (eval f) k).
+Proof. unfold noob, bind, eval. intros H. exact H. Qed.
+
+(* memchr found a NUL in [p, p + n) and that range lies inside the payload: the C string at p ends inside the payload *)
+Lemma cstr_from_memchr sx e p n : rd_ok_range sx tt e p n = true -> mem_has sx tt e p 0 n = true -> cstr_ok sx tt e p = true.
+Proof.
+  unfold rd_ok_range, inb, mem_has, cstr_ok. intros Hr Hm. apply andb_true_iff in Hr as [H0 H1].
+  rewrite H0. cbn [andb]. apply existsb_exists in Hm as (k & Hin & Hk). apply existsb_exists. exists k. split.
+  - apply in_seq in Hin. apply in_seq. apply Z.leb_le in H0, H1. lia.
+  - exact Hk.
+Qed.
+
+Lemma pre_type_noob_gen sx e (rest : Z -> M unit) :
+  (forall label, cstr_ok sx tt e label = true -> noob sx (rest label)) ->
+  forall label_off, label_off = 8 ->
+  noob sx (ite (fun sx st => Z.leb (get_emu_ev_payload_size sx st e) label_off) (fail E_FAIL)
+    (need (fun sx st => cnn (get_emu_ev_payload sx st e))
+      (bind (eval (fun sx st => Z.add 4 (Z.mul 1 0))) (fun data =>
+        need (fun sx st => cin (rd_ok_bytes sx st e data 4))
+          (bind (eval (fun sx st => rd_bytes_uint32 sx st e data)) (fun typeid =>
+            bind (eval (fun sx st => Z.add data (Z.mul 1 4))) (fun data =>
+              bind (eval (fun sx st => data)) (fun label =>
+                need (fun sx st => cin (rd_ok_range sx st e label (cast_uint64 (Z.sub (get_emu_ev_payload_size sx st e) label_off))))
+                  (ite (fun sx st => negb (mem_has sx st e label 0 (cast_uint64 (Z.sub (get_emu_ev_payload_size sx st e) label_off))))
+                    (fail E_FAIL) (rest label)))))))))).
+Proof.
+  intros Hrest label_off ->.
+  apply noob_ite; intros Hsz; [apply noob_fail; discriminate|].
+  unfold get_emu_ev_payload_size in Hsz. apply Z.leb_gt in Hsz.
+  apply noob_need; [unfold cnn; destruct (is_null _); discriminate|intros _].
+  apply noob_bind_eval. change (Z.add 4 (Z.mul 1 0)) with 4.
+  assert (Eb0 : rd_ok_bytes sx tt e 4 4 = true).
+  { unfold rd_ok_bytes, inb. apply andb_true_iff. split; apply Z.leb_le; lia. }
+  apply noob_need.
+  { cbv beta. unfold cin. rewrite Eb0. discriminate. }
+  intros _. apply noob_bind_eval. apply noob_bind_eval. apply noob_bind_eval.
+  change (Z.add 4 (Z.mul 1 4)) with 8.
+  assert (Hc : 0 <= cast_uint64 (get_emu_ev_payload_size sx tt e - 8) <= psize e - 8).
+  { unfold get_emu_ev_payload_size, cast_uint64, wrapu. split.
+    - apply Z.mod_pos_bound. reflexivity.
+    - apply Z.mod_le; [lia|reflexivity]. }
+  assert (Er0 : rd_ok_range sx tt e 8 (cast_uint64 (get_emu_ev_payload_size sx tt e - 8)) = true).
+  { unfold rd_ok_range, inb. apply andb_true_iff. split; apply Z.leb_le; lia. }
+  apply noob_need.
+  { cbv beta. unfold cin. rewrite Er0. discriminate. }
+  intros Hr. apply noob_ite; intros Hm; [apply noob_fail; discriminate|].
+  apply Hrest. apply negb_false_iff in Hm.
+  unfold cin in Hr. destruct (rd_ok_range sx tt e 8 (cast_uint64 (get_emu_ev_payload_size sx tt e - 8))) eqn:Er; [|discriminate].
+  exact (cstr_from_memchr sx e 8 _ Er Hm).
+Qed.
+
+Ltac pre_type_proof :=
+  apply noob_bind_eval; apply noob_ite; intros; [apply noob_fail; discriminate|];
+  apply noob_ite; intros; [apply noob_fail; discriminate|];
+  apply noob_bind_eval;
+  apply pre_type_noob_gen; [|reflexivity];
+  intros label Hl; apply noob_bind_eval; apply noob_bind_eval;
+  apply noob_bind_; [|apply noob_ret];
+  apply noob_need; [cbv beta; unfold cin; rewrite Hl; discriminate|intros _; apply noob_opq_action].
+
+Lemma nosv_pre_type_noob sx e : noob sx (Foot_gen.nosv_pre_type e).
+Proof. unfold Foot_gen.nosv_pre_type. pre_type_proof. Qed.
+Lemma nanos6_pre_type_noob sx e : noob sx (Foot_gen.nanos6_pre_type e).
+Proof. unfold Foot_gen.nanos6_pre_type. pre_type_proof. Qed.
+
 Lemma noob_exec sx (m : M unit) : noob sx m -> exec m sx <> Err E_OOB.
 Proof. unfold noob, exec. destruct (m sx tt) as [[u s]|x]; [discriminate|]. intros H E. inversion E. contradiction. Qed.
 
@@ -133,6 +199,12 @@ Proof.
   repeat split; apply noob_exec.
   - apply model_ovni_event_noob. - apply mark_event_noob. - apply nosv_pre_task_noob. - apply nanos6_pre_task_noob.
 Qed.
+
+(* the type-create handlers: the type id is read at bytes [4, 8), memchr scans [8, payload_size), and the label handed
+   to task_type_create is a C string that ends inside the payload *)
+Theorem pre_type_in_bounds sx e :
+  exec (Foot_gen.nosv_pre_type e) sx <> Err E_OOB /\ exec (Foot_gen.nanos6_pre_type e) sx <> Err E_OOB.
+Proof. split; apply noob_exec; [apply nosv_pre_type_noob|apply nanos6_pre_type_noob]. Qed.
 
 (* ---------------------------------------------------------------- the size guards and RejectDefs.wrong_size *)
 
